@@ -203,8 +203,12 @@ def run(rep: vk.Report):
                 break
         rep.violation({"kind": "correspondence", "obligation": "compute_jacobian rows / compile path = model (Jacobian.v)",
                        "case": trees.terms[i][:6000], "meta": trees.meta[i], "model": model, "witness": wit}, concrete=wit is not None)
+    excused = 0
     for i in num_fails:
         m = num_meta[i]
+        if common.sanitised_overflow(IMPORTS + " SemI HarnessI", DEFS, nums[i], "match c with (e, v, pts, ppts, _) => enclosure (grad ln2c ln10c v e) pts ppts end", m["obs"]):
+            excused += 1          # the true derivative exceeds binary64: +-1e16 is the documented answer there
+            continue
         es, V = keep[m["case"]]
         rep.violation({"kind": "numeric", "obligation": "Jacobian/gradient entry within the enclosure of the proved derivative",
                        "case": nums[i][:5000], "meta": m,
@@ -212,6 +216,7 @@ def run(rep: vk.Report):
                                    "entry": [m["i"], m["j"]], "observed": m["obs"]}}, concrete=True)
 
     cov = rep.coverage
+    cov["entries_whose_true_value_exceeds_binary64"] = excused
     cov["evaluations"] = len(trees.terms) + len(nums)
     cov["distinct_nontrivial"] = trees.nontrivial
     cov["rule"] = ("lists of 1-3 API-built expressions shaped to hit every compile_jacobian path, V = natural order / permuted / "
